@@ -311,6 +311,7 @@ PLANS["C30"] = {
                                spread(seed, "C30u", N(tier, 30, 600), ["QF_LRA"], "configs", mode="guarded", nnum=6, cfgs=["proofs", "seed"], timeout=20) +
                                spread(seed, "C30v", N(tier, 20, 400), ["QF_LRA"], "configs", mode="guarded", nnum=12, cfgs=["proofs"], timeout=20) +
                                spread(seed, "C30y", N(tier, 40, 800), ["QF_UFLRA"], "configs", mode="eqsys", cfgs=["seed", "nosubst", "cores"], timeout=20) +
+                               spread(seed, "C30t", N(tier, 12, 240), ["QF_UF", "QF_UF", "QF_UFLRA"], "configs", mode="tower", cfgs=["seed", "cores"], timeout=20) +
                                spread(seed, "C30g", N(tier, 40, 800), ["QF_RDL", "QF_UFRDL", "QF_RDL"], "configs", mode="dlgraph", nnum=5,
                                       cfgs=["proofs", "cores", "seed"], timeout=20),
     "rule": "every check-sat of the non-integer script space under all engines and tracking options and in push/pop histories "
